@@ -842,7 +842,7 @@ func drive() {
 
 func genTree(r *hx.Rand, depth int, budget *int, stub bool) *node {
 	n := &node{dir: true, listable: !r.Chance(1, 16)}
-	names := []string{"a", "b", "c", "d", "e", "f2", "g"}
+	names := []string{"a", "b", "c", "d", "e", "f2", "g", ".h", "..k"} // dot-prefixed real names are ordinary nodes
 	if stub && r.Chance(1, 10) {
 		names = append(names, ".", "..")
 	}
